@@ -203,8 +203,11 @@ class TracingDB(DBHandler):
 
     def _seam(self, fn: Any, name: str, fault_after: bool = False) -> Any:
         owner = self._owner()
+        me = asyncio.current_task()
 
         async def wrapped(*a: Any, **kw: Any) -> Any:
+            if asyncio.current_task() is not me:
+                return await fn(*a, **kw)  # the executor task of the DBHandler uses the same connection
             if _substep(owner, name) == "dbfault":
                 if fault_after:
                     await fn(*a, **kw)
